@@ -44,7 +44,7 @@ class Ctx:
     # ------------------------------------------------------------------ budgets
     # thorough tier: per-property multiplier so that each thorough check runs for several minutes on 16 cores
     THOROUGH_SCALE = {'C02': 5, 'C03': 3, 'C04': 10, 'C05': 10, 'C06': 6, 'C07': 8, 'C09': 5, 'C10': 2, 'C11': 10, 'C12': 10,
-                      'C13': 5, 'C14': 10, 'C15': 10, 'C17': 8}
+                      'C13': 5, 'C14': 10, 'C15': 10, 'C17': 4}
 
     def budget(self, quick, thorough):
         n = quick if self.tier == 'quick' else int(thorough * self.THOROUGH_SCALE.get(self.pid, 1))
@@ -165,7 +165,7 @@ class Ctx:
         return True
 
     # ------------------------------------------------------------------ step 3
-    def component(self, name, cases, timeout=3000, model=True, keys=None, verdict=True):
+    def component(self, name, cases, timeout=3000, model=True, keys=None, verdict=True, retain=True):
         """model vs implementation on the given case lines.
         model=False : implementation only (under the sanitizers), traces for the oracle
         keys        : compare only these observables (the ones the property's theorems depend on)
@@ -173,7 +173,7 @@ class Ctx:
         if self.bdir is None:
             return None
         t0 = time.time()
-        res = vf.run_both(self.bdir, cases, name, timeout=timeout, model=model, keys=keys)
+        res = vf.run_both(self.bdir, cases, name, timeout=timeout, model=model, keys=keys, retain=retain)
         if not verdict:
             self.extra.setdefault('diagnostics', {})[name] = {'cases': res['n'], 'compared_tokens': res['compared_tokens'],
                                                                'mismatches': len(res['mismatches']), 'crashes': len(res['crashes']),
